@@ -59,9 +59,14 @@ Definition updateZ (i : Z) (f : Z -> Z) (ws : list Z) : option (list Z) :=
   if i <? 0 then None else update_nth (Z.to_nat i) f ws.
 
 (** [for int(wordIdx) >= len(tb.Words) { tb.Words = append(tb.Words, 0) }] :
-    appends zeros until [len(Words) = wordIdx + 1] (nothing when already longer). *)
+    nothing when [wordIdx] is already inside [Words] (the loop condition is false at once; tested by
+    indexing, which costs O(wordIdx) instead of O(len) in the extracted model), otherwise zeros are
+    appended until [len(Words) = wordIdx + 1]. *)
 Definition grow (ws : list Z) (wordIdx : Z) : list Z :=
-  ws ++ repeat 0 (Z.to_nat (wordIdx + 1 - zlen ws)).
+  match nthZ ws wordIdx with
+  | Some _ => ws
+  | None => ws ++ repeat 0 (Z.to_nat (wordIdx + 1 - zlen ws))
+  end.
 
 (** [Set(idx)] *)
 Definition Set_ (s : tb) (idx : Z) : option tb :=
